@@ -87,6 +87,73 @@ def random_histories(ctx, what: str, cmds: set, n_quick: int = 16, n_thorough: i
     ctx.set("random_history_commands", len(mine))
 
 
+def bulk_create(ctx, what: str) -> None:
+    """Index.tla's statements about `db create` (Agreement, AllZid, UniqueZid, OnlyZidInsertions, Idempotent) evaluated on real
+    stores far beyond the model's bounds: hundreds of new notes of one create date spread over pages in two directories, so that
+    the ZID counter of that date walks through carries of the suffix alphabet."""
+    import re
+    from .. import bind_index as bi
+    from .. import zenv
+    zenv.set_day("2024-05-10")
+    n1, n2, n3 = (45, 70, 30) if ctx.quick else (160, 700, 330)
+    env = zenv.ZEnv()
+    try:
+        kinds = ["-", "o", "o P1", "x", "~ P2", "<", ">"]
+        pages = {"inbox.zo": "# Inbox +pj_in\n\n" + "".join(f"{kinds[i % 7]} item {i} of the inbox k::v{i}\n" for i in range(n1)),
+                 "sub/bulk.zo": "# Bulk #ar_b\n\n" + "".join(
+                     f"{kinds[i % 7]} bulk {i}\n" + ("  * detail of " + str(i) + "\n" if i % 5 == 0 else "") for i in range(n2)),
+                 "dated.zo": "# Dated\n\n" + "".join(f"- 2024-05-0{1 + i % 3} dated {i} +t{i}\n" for i in range(n3))}
+        for f, t in pages.items():
+            env.write(f, t)
+        r = env.db_create()
+        ctx.add("evaluations")
+        if not r.ok:
+            ctx.violation(f"{what}: `db create` of {n1 + n2 + n3} new notes failed: {r!r}", {"pages": {k: v[:300] for k, v in pages.items()}})
+            return
+        after = {f: env.read(f) for f in pages}
+        zids = []
+        for f, before in pages.items():
+            bl, al = before.split("\n"), after[f].split("\n")
+            if len(bl) != len(al):
+                ctx.violation(f"{what}: {f} has {len(al)} lines after `db create`, {len(bl)} before", {"file": f, "after": after[f][:2000]})
+                return
+            for i, (b, a) in enumerate(zip(bl, al)):
+                m = re.match(r"^([-ox~<>](?: P\d)? )(?:(\d{4}-\d\d-\d\d) )?(.*)$", b)
+                if not m or b.startswith("  "):
+                    if a != b:
+                        ctx.violation(f"{what}: line {i + 1} of {f} is not an item and changed: {b!r} -> {a!r}", {"file": f})
+                        return
+                    continue
+                z = re.match(re.escape(m.group(1)) + r"(\d{6}#[0-9A-Za-z]{2,3}) " + re.escape(m.group(3)) + "$", a)
+                want_day = (m.group(2) or "2024-05-10").replace("-", "")[2:]
+                if not z or z.group(1)[:6] != want_day:
+                    ctx.violation(f"{what}: line {i + 1} of {f}: {b!r} became {a!r} (expected only a ZID of {want_day} after the prefix)",
+                                  {"file": f, "line": i + 1, "before": b, "after": a})
+                    return
+                zids.append(z.group(1))
+        if len(set(zids)) != len(zids):
+            dup = sorted({z for z in zids if zids.count(z) > 1})[:5]
+            ctx.violation(f"{what}: ZIDs handed out twice by one `db create`: {dup}", {"dups": dup})
+            return
+        diffs = bi.agreement_real(env)
+        if diffs:
+            ctx.violation(f"{what}: after `db create` of {len(zids)} new notes index and files disagree: {diffs[:3]}", {"diffs": diffs[:20]})
+            return
+        dump = bi.canonical_dump(env)
+        for cmd in (("db", "reindex"), ("db", "create")):
+            r = env.main(*cmd)
+            ctx.add("evaluations")
+            now = {f: env.read(f) for f in pages}
+            if not r.ok or now != after or bi.canonical_dump(env) != dump:
+                f = next((f for f in pages if now[f] != after[f]), None)
+                ctx.violation(f"{what}: a second run (`{' '.join(cmd)}`) without edits changed " + (f"file {f}" if f else "the index") + f" (rc={r.rc})",
+                              {"cmd": cmd, "file": f})
+                return
+        ctx.set("bulk_create", {"new_notes": len(zids), "pages": len(pages)})
+    finally:
+        env.cleanup()
+
+
 def edit_loop(ctx, what: str, kinds: set, n_quick: int = 24, n_thorough: int = 400) -> None:
     """`zorg edit` sessions with a scripted user (harness/bus.py): the real-store statements of kind `kinds`, evaluated after
     every process that ended normally, are verdicts; conformance of the recorded effect sequence to Bus.tla is reported as
